@@ -129,14 +129,17 @@ def seqModelF (f k : Nat) : List Leg := (List.range k).map fun i =>
 
 def runSeq (case impl : String) : String × String :=
   let par := (kvNat (words case) "par").getD 1
-  let f := ((kvNat (words case) "fail").getD 0) * par
+  -- `giveup` rounds: the caller's deadline ends before the TCP leg's reply — the TCP leg's outcome is its error
+  let f := (((kvNat (words case) "fail").getD 0) + ((kvNat (words case) "giveup").getD 0)) * par
   match (kvNat (words case) "seq").map (· * par) with
   | some k =>
     let exp := (seqModelF f k).map fun l => match l with | .msg _ false => "ok" | .msg _ true => "tc" | .err => "err"
     let out := "res=" ++ ",".intercalate exp
     let v := if impl == "panic" then "viol:panic"
       else match kvGet (words impl) "res" with
-        | some r => if r.splitOn "," == exp then "ok" else "viol"
+        | some r =>
+          if (kvNat (words impl) "overlap").getD 0 ≠ 0 then "viol:C06:second-query-on-a-connection-that-owes-a-reply"
+          else if r.splitOn "," == exp then "ok" else "viol"
         | none => "unparsed"
     (out, v)
   | none => ("bad-case", "na")
